@@ -51,10 +51,15 @@ def windows_well_formed(self):
                     bad = 'empty window'
                 elif window[0].func_qualifier != 1 or window[0].eventid != code or window[0].tid != tid:
                     bad = 'window does not start with a START of its code on its thread'
-                elif any(e.tid != tid for e in window):
-                    bad = 'window holds an event of another thread'
-                elif any(e.eventid == code and e.func_qualifier == 2 for e in window):
-                    bad = 'window holds an END of its own code'
+                else:
+                    # the invariant runs after every feed and a feed appends at most one event per window: beyond 256
+                    # events only the tail is walked (every appended event is still seen once), otherwise the monitor
+                    # is quadratic in the window length and the 2^16 rungs become unaffordable
+                    part = window if len(window) <= 256 else window[-32:]
+                    if any(e.tid != tid for e in part):
+                        bad = 'window holds an event of another thread'
+                    elif any(e.eventid == code and e.func_qualifier == 2 for e in part):
+                        bad = 'window holds an END of its own code'
                 if bad and len(InvariantLog.failures) < 10:
                     InvariantLog.failures.append(f'{table_name}[{tid}][{hex(code)}]: {bad}')
     return True
@@ -321,16 +326,24 @@ def random_histories(res, ctx, rng):
 def long_windows(res, ctx, rng):
     """Windows holding hundreds to thousands of same-thread events (a long-running call)."""
     inv = H.inventory()
-    ladder = list(ctx.pick((4095, 4096, 5000), (4095, 4096, 5000, 16384, 20000, 65536, 70000))) if ctx.shard == 0 else []
+    ladder = [n for i, n in enumerate(ctx.pick(H.SCALE_RUNGS_QUICK, H.SCALE_RUNGS_THOROUGH)) if ctx.mine(i)]
     for it in range(ctx.pick(6, 60) + len(ladder)):
         outer = rng.choice(inv['bsd'])
         inner_codes = rng.sample(inv['decodable'], 3) + rng.sample(inv['undecoded_sample'], 1) + ['TRACE_DATA_EXEC']
         n = ladder[it] if it < len(ladder) else rng.choice((255, 256, 257, 300, 1000, 2500))
         history = [mk_event(rng, 1000, outer, 1, 5)]
-        for i in range(n):
+        # beyond 10000 events the nested STARTs/ENDs are thinned out (each END costs the recorder a state snapshot)
+        quals = (0, 0, 3, 1, 2) if n <= 10000 else (0, 0, 3) * 2000 + (1, 2)
+        # n is the size of the delivered window, START and END included: records of the other thread and of the other
+        # pairing domain come on top
+        inside, i = 0, 0
+        while inside < n - 2:
             code = rng.choice(inner_codes)
-            history.append(mk_event(rng, 1007 + 7 * i, code, rng.choice((0, 0, 3, 1, 2)), rng.choice((5, 5, 5, 6))))
-        history.append(mk_event(rng, 1007 + 7 * n, outer, 2, 5))
+            tid = rng.choice((5, 5, 5, 6))
+            history.append(mk_event(rng, 1007 + 7 * i, code, rng.choice(quals), tid))
+            inside += tid == 5 and code not in TRACE_DOMAIN
+            i += 1
+        history.append(mk_event(rng, 1007 + 7 * i, outer, 2, 5))
         check_history(res, history, f'long window ({n} events)')
         res.count('long_window_histories')
 
